@@ -263,8 +263,8 @@ def tpv_run(name, src, a, b):
     return {"shape": shape, "values": vals}
 
 
-def main():
-    seed = int(os.environ.get("VERIF_SEED", "0") or 0)
+def run(seed=0):
+    """returns (number of differential executions, list of mismatches)"""
     failures, ran = [], 0
     for rep in range(3):
         inputs = gen_inputs(seed * 100 + rep)
@@ -295,6 +295,12 @@ def main():
             ok = mine["shape"] == r["shape"] and len(mine["values"]) == len(r["values"]) and all(abs(x - y) < 1e-6 for x, y in zip(mine["values"], r["values"]))
             if not ok:
                 failures.append((name, rep, mine, r))
+    return ran, failures
+
+
+def main():
+    seed = int(os.environ.get("VERIF_SEED", "0") or 0)
+    ran, failures = run(seed)
     print(f"selftest: {ran} differential executions of {len(CASES)} source snippets (tpv interpreter + torch model vs real CPython + torch)")
     for f in failures:
         print("MISMATCH", json.dumps(f, default=str)[:600])
